@@ -64,11 +64,13 @@ def s_rates():
 
 
 def s_explog():
-    return st.fixed_dictionaries({"kind": st.just("explog"), "s": gens.fl(-20, 20), "vdir": gens.direction3(),
+    # scalar part: exp(s) stays a normal double for |s| up to ~700; -300 .. 300 keeps norm and products of exp(q) representable
+    return st.fixed_dictionaries({"kind": st.just("explog"), "s": st.one_of(gens.fl(-20, 20), gens.fl(-300, 300), gens.signed_logmag(-6, 2.4)), "vdir": gens.direction3(),
                                   "vnorm": st.one_of(gens.logmag(-6, 0.49), gens.fl(1e-6, math.pi - 1e-6),
                                                      # towards the open end of (0, pi): pi - 10^-k (k <= 13: the norm of the built vector is
                                                      # itself rounded, so the last ulps before pi may already lie beyond it)
-                                                     st.integers(1, 13).map(lambda k: math.pi - 10.0 ** (-k))),
+                                                     st.integers(1, 14).map(lambda k: math.pi - 10.0 ** (-k)),
+                                                     st.sampled_from([8, 12, 16, 24, 32, 48, 64]).map(lambda j: math.pi - j * 4.440892098500626e-16)),
                                   "logmag": gens.logmag(-3, 3), "ratio": gens.logmag(-6, 0), "sign": st.sampled_from([-1.0, 1.0])})
 
 
